@@ -169,7 +169,8 @@ class Gen:
             else:
                 raw += "\\'" if kind == 's' else self.pick(["'", "''", '\n', '\n\n', ' \n'])
         if kind == 'm':
-            raw = raw.replace("'''", "''")
+            while "'''" in raw:        # (one pass leaves ''' behind when four or more quotes meet)
+                raw = raw.replace("'''", "''")
             while raw.endswith("'") or raw.endswith('\\'):
                 raw = raw[:-1]
             if ascii_only and any(e in raw for e in ()):
@@ -481,7 +482,8 @@ class Gen:
                     raw += self.pick(['\\n', '\\t', "\\'", '\\\\', '\\x41', '\\q'])
             kind = 'fs' if self.chance(75) else 'fm'
             if kind == 'fm':
-                raw = raw.replace("'''", "''")
+                while "'''" in raw:
+                    raw = raw.replace("'''", "''")
                 while raw.endswith("'") or raw.endswith('\\'):
                     raw = raw[:-1]
             return ['str', raw, kind]
@@ -1367,7 +1369,9 @@ def family_escapes(draw: T.Any) -> dict:
         nb = len(raw) - len(raw.rstrip('\\'))
         if nb % 2 == 1:
             raw += 'n'
-        rawm = raw.replace("'''", "''")
+        rawm = raw
+        while "'''" in rawm:
+            rawm = rawm.replace("'''", "''")
         while rawm.endswith("'") or rawm.endswith('\\'):
             rawm = rawm[:-1]
         a, b = g.fresh('s'), g.fresh('m')
